@@ -5,7 +5,7 @@ from hblib import x, jtok
 from families.common import rcase, res_of
 
 RULE = ('name class {user helper, built-in helper, data field, helper+field, neither} x tag form {bare, with '
-        'args, block, subexpression, ./n, this.n, [n], this/n} x configuration {hooks on/off, local helper via '
+        'args, hash only, args+hash, block, block with hash only, subexpression, subexpression with hash only, ./n, this.n, [n], this/n} x configuration {hooks on/off, local helper via '
         'decorator on/off, strict on/off} x position {top level, inside each, inside with, inside a partial} '
         '(exhaustive every run) plus decorator-forward-effect cases; oracle: who must handle the tag per the '
         'property text. Non-trivial = every cell (each is a distinct decision)')
@@ -18,7 +18,7 @@ NAMES = {
     'field': dict(name='fld', helper=False, field=True),
     'neither': dict(name='zip', helper=False, field=False),
 }
-FORMS = ['bare', 'args', 'block', 'subexpr', './', 'this.', '[]', 'this/']
+FORMS = ['bare', 'args', 'block', 'subexpr', './', 'this.', '[]', 'this/', 'hash', 'argshash', 'blockhash', 'subhash']
 
 def wrap(pos, t):
     if pos == 'top':
@@ -51,6 +51,14 @@ def gen_cases(rng, tier, scale):
             t = '{{#%s 1}}B{{/%s}}' % (n, n)
         elif form == 'subexpr':
             t = '{{id (%s 1)}}' % n
+        elif form == 'hash':
+            t = '{{%s k=1}}' % n
+        elif form == 'argshash':
+            t = '{{%s 1 k=2}}' % n
+        elif form == 'blockhash':
+            t = '{{#%s k=1}}B{{/%s}}' % (n, n)
+        elif form == 'subhash':
+            t = '{{id (%s k=1)}}' % n
         elif form == './':
             t = '{{./%s}}' % n
         elif form == 'this.':
@@ -83,6 +91,8 @@ def gen_cases(rng, tier, scale):
 def expect(c):
     """who handles the tag, per the property text -> predicate on the result"""
     info, form, n = c['info'], c['form'], c['nm']
+    noparam = form in ('hash', 'blockhash', 'subhash')      # a call (it has hash arguments) without positional ones
+    form = {'hash': 'args', 'argshash': 'args', 'blockhash': 'block', 'subhash': 'subexpr'}.get(form, form)
     explicit = form in ('./', 'this.', '[]', 'this/')
     if explicit:
         if info['field']:
@@ -94,7 +104,7 @@ def expect(c):
         if n in ('dump', 'dump2'):
             return ('prefix', n + '(')
         # len: invoked as a helper (not read as a field)
-        if form == 'bare':
+        if form == 'bare' or noparam:
             return ('err', 'ParamNotFoundForName')
         if form == 'block':
             return ('out', '1' if False else '0')        # len of the number 1 is 0; a block call still calls the helper
@@ -116,7 +126,7 @@ def oracle(c, io, mo):
             return None if (r['kind'] == 'err' and r['reason'] == e[1]) else f'expected error {e[1]}, got {r}'
         return None if r.get('out') == e else f'expected {e!r}, got {r.get("out", r.get("reason"))!r}'
     e = expect(c)
-    sub = c['form'] == 'subexpr'
+    sub = c['form'] in ('subexpr', 'subhash')
     if e[0] == 'out':
         return None if r.get('out') == e[1] else f'{c["cls"]}/{c["form"]}: expected output {e[1]!r}, got {r.get("out", r.get("reason"))!r}'
     if e[0] == 'prefix':
